@@ -23,3 +23,21 @@ def fill(claim, NA):
         "Trusted: CrossHair+z3 incl. repaired regex matcher; reference display/decoder functions in the harness; html.parser/lxml tokenisation as contracts. Bounds: text <= 3 free code points per shape; 8 named + all decimal 32..999 + 6 hex references.",
         "CrossHair symbolic execution + z3 over symbolic strings",
     )
+    claim(
+        "C15",
+        "Bounded symbolic check of the SCC line-length scan: the real SCCReader.read is run on an injected stash of 2-4 captions whose start sharing and line-length classes (1, 31, 32, 33, 40) are symbolic choices, plus real decoding of one row of 28-38 characters in all three modes; it must raise the length error naming every line over 32 exactly when one exists.",
+        "Trusted: CrossHair+z3 (finite structure space, path search certified complete). Stash injection instead of decoding for the multi-caption obligations; length classes stand for all lengths (the scan compares with 32 only).",
+        "CrossHair symbolic execution + z3 on injected reader state",
+    )
+    claim(
+        "C19",
+        "Bounded symbolic check of merge_concurrent_captions/merge/adjust_caption_timing over unconstrained integer instants: 3-4 (thorough 6) captions in 1-2 languages, every pattern of equal/unequal timespans is a solver-explored path; output runs, node identity, break placement, idempotence, survivors and affine retiming are asserted.",
+        "Trusted: CrossHair+z3. Integer skews 1..4 only (float skews realise in CrossHair and are not claimed).",
+        "CrossHair symbolic execution + z3 over unbounded integers",
+    )
+    claim(
+        "C20",
+        "Bounded symbolic check of detect_format and all six detect() methods on every string of length <= 3 over the statement's alphabet, on format markers combined with free characters, on every truncation of a valid document of each format, and on pycaption's own writer output: never raises, result equals the first accepting reader in the documented order.",
+        "Trusted: CrossHair+z3 string model incl. repaired regex matcher. Bounds: |s| <= 3 (5 thorough), 10 markers, truncation index <= 80; SAMI/DFXP own output produced concretely at import (bs4/cssutils do not run under tracing).",
+        "CrossHair symbolic execution + z3 over symbolic strings",
+    )
